@@ -33,15 +33,23 @@
 From Coq Require Import List Arith Bool.
 Import ListNotations.
 
-(* An exception object is one of the library's static exception objects (TypeError,
-   ValueError, ...); the model names them by an index ("kind").  The message is the text
-   exception_throw formats into e->msg; the model keeps it as a number (the harness throws
-   with the format "m%d"). *)
+(* An exception object is any Cello object: one of the library's static exception Type objects
+   (TypeError, ValueError, ...), another Type object of the same name, a heap Int or String used as
+   an exception value, a copy of a caught object ...  The model names an object by a number [o], its
+   IDENTITY (the pointer).  exception_catch compares filter entries with the thrown object by
+   `eq` (cmp = 0: Type objects by name, Int/String by value), not by identity; [kind_of o] is the
+   eq-class of object o, so distinct objects 10*k, 10*k+1, .. are `eq` to each other.  The machine's
+   [obj] field and the handler variable hold the identity.
+   The message is the text exception_throw formats into e->msg; the model keeps it as a number: the
+   harness throws with the format "m%i" and that number, and message 0 is the EMPTY format
+   `throw(X, "")` (e->msg becomes the empty string, as in a fresh record). *)
+Definition kind_of (o : nat) : nat := Nat.div o 10.
+
 Inductive prog : Type :=
 | PSkip                                         (* ;                                          *)
 | PTick (n : nat)                               (* an observable statement                     *)
 | PSeq (p q : prog)                             (* p; q                                        *)
-| PThrow (k m : nat)                            (* throw(K_k, "m%d", m)                        *)
+| PThrow (o m : nat)                            (* throw(X_o, "m%i", m)  /  throw(X_o, "") for m = 0 *)
 | PTry (body : prog) (filters : list nat) (handler : prog)
                                                 (* try { body } catch (e in filters) { handler } *)
 | PCall (p : prog).                             (* f(); where the body of f is p — dynamic nesting.
@@ -53,7 +61,7 @@ Inductive prog : Type :=
 (* Observations.  [d] is len(current(Exception)) = e->depth at that moment. *)
 Inductive event : Type :=
 | ETick (n d : nat)                             (* statement n executed                        *)
-| EHandler (k m d : nat).                       (* handler entered; bound object k; e->msg = m *)
+| EHandler (o m d : nat).                       (* handler entered; bound object (identity) o; e->msg = m *)
 
 (* ------------------------------------------------------------------ the machine state *)
 
@@ -116,10 +124,10 @@ Definition exception_throw (k m : nat) (st : mstate) : mstate * mout :=
 (* "If no Arguments catch all", otherwise eq(get(args, $I(i)), e->obj) for some i < len(args).
    (The pinned code walked the filter with foreach; see tuple_next / foreach_matches below for
    why that is the same on duplicate-free filters only.) *)
-Definition matches (filters : list nat) (k : nat) : bool :=
+Definition matches (filters : list nat) (o : nat) : bool :=
   match filters with
   | [] => true
-  | _ => existsb (Nat.eqb k) filters
+  | _ => existsb (fun f => kind_of f =? kind_of o) filters      (* eq(filter_i, e->obj) *)
   end.
 
 Inductive catch_result : Type :=
@@ -259,7 +267,7 @@ Fixpoint foreach_matches (fuel : nat) (items : list nat) (cur : option nat) (k :
   | S f =>
       match cur with
       | None => Some false                          (* Terminal: loop left, no match *)
-      | Some c => if Nat.eqb k c then Some true     (* eq(arg, e->obj) *)
+      | Some c => if kind_of c =? kind_of k then Some true     (* eq(arg, e->obj) *)
                   else foreach_matches f items (tuple_next items c) k
       end
   end.
@@ -268,6 +276,11 @@ Fixpoint foreach_matches (fuel : nat) (items : list nat) (cur : option nat) (k :
    (ExnProofs.eval_iff_ref_run: it is the graph of [ref_run]).  The three rules for PTry are the
    property's sentence "a handler runs if and only if an exception raised in its own try body was
    not already handled by an inner block and matches its filter". *)
+Definition accepts (fs : list nat) (o : nat) : Prop :=      (* empty filter, or some entry is eq to o *)
+  fs = [] \/ exists f, In f fs /\ kind_of f = kind_of o.
+Definition rejects (fs : list nat) (o : nat) : Prop :=
+  fs <> [] /\ forall f, In f fs -> kind_of f <> kind_of o.
+
 Inductive eval : nat -> prog -> list event -> rres -> Prop :=
 | EvSkip : forall d, eval d PSkip [] RNormal
 | EvTick : forall d n, eval d (PTick n) [ETick n d] RNormal
@@ -280,10 +293,10 @@ Inductive eval : nat -> prog -> list event -> rres -> Prop :=
 | EvTryNormal : forall d b fs h t,            (* nothing reaches this block: the handler stays out *)
     eval (S d) b t RNormal -> eval d (PTry b fs h) t RNormal
 | EvTryHandled : forall d b fs h t1 k m t2 r, (* the body let k escape and the filter accepts it *)
-    eval (S d) b t1 (RRaised k m) -> (fs = [] \/ In k fs) ->
+    eval (S d) b t1 (RRaised k m) -> accepts fs k ->
     eval d h t2 r -> eval d (PTry b fs h) (t1 ++ EHandler k m d :: t2) r
 | EvTryPassed : forall d b fs h t1 k m,       (* the filter does not accept k: outwards, untouched *)
-    eval (S d) b t1 (RRaised k m) -> fs <> [] -> ~ In k fs ->
+    eval (S d) b t1 (RRaised k m) -> rejects fs k ->
     eval d (PTry b fs h) t1 (RRaised k m).
 
 (* [chain levels p]: p wrapped in try blocks, innermost first: levels = [(fs1,h1); (fs2,h2); ..]
